@@ -280,6 +280,7 @@ def _run_path(interp, reg, c, func, rep):
             ghosts.update(extra)
             reg.ghost_env.update(extra)
     env = _clause_env(args, ghosts, {'trace': st.trace, 'ghost': st.ghost})
+    interp.root_values = [args, ghosts]
     if c.requires is not None:
         st.assume(interp.truth(_call_pred(interp, c.requires, env)))
     if st.check() == z3.unsat:
@@ -288,6 +289,7 @@ def _run_path(interp, reg, c, func, rep):
     if c.old is not None:
         old = _call_pred(interp, c.old, env)
         reg.ghost_env['old'] = old        # visible to loop invariants
+        interp.root_values.append(old)
     # positional order of the real function
     code = func.__code__
     names = list(code.co_varnames[:code.co_argcount + code.co_kwonlyargcount])
